@@ -615,3 +615,26 @@ def f10_sizes():
             f"emit('ab' * {n})\nemit(('ab' * {n}).rfind('ba'))\nemit(s.startswith('0,1') or {n} < 2)\n", None
         yield "F10.tuple", f"t = tuple(range({n}))\nemit(t)\nemit(t + t == t * 2)\nemit(t[::-1][:4])\nemit(len(t))\n" \
             f"emit({n} - 1 in t)\nemit(t < t + (0,))\nemit(sorted(t, reverse=True)[:3])\n", None
+
+
+def f11_definite_assignment():
+    """A local that is assigned on some paths only, mentioned in a conditionally evaluated position (right operand of and/or,
+    a branch of a conditional expression, a comprehension over a possibly empty iterable, a guarded statement), and read later:
+    the read must fail cleanly when the local was never assigned - whatever the definite-assignment analysis concluded from the
+    conditional mention."""
+    assigns = ["if c:\n    x = [1]", "for _ in ([1] if c else []):\n    x = [1]", "if c:\n    x = [1]\nelse:\n    pass",
+               "if not c:\n    pass\nelse:\n    x = [1]"]
+    uses = ["ok = c and x", "ok = c and x and 1", "ok = (not c) or x", "ok = x if c else 0", "ok = 0 if not c else x",
+            "ok = [x for _ in ([1] if c else [])]", "ok = c and [x]", "ok = c and (x or 1)", "ok = (c and x) or 0", "ok = c and len(x)",
+            "ok = 0\nif c:\n    ok = x", "ok = 0\nif c and x:\n    ok = 1", "ok = [c and x]", "ok = {1: c and x}", "ok = ident(c and x)",
+            "ok = c and x[0]", "ok = c and x == [1]", "ok = c and not x", "ok = 1 if c and x else 0", "ok = [1 for _ in [1] if c and x]",
+            "ok = c and (lambda: x)()", "ok = (c or 0) and x", "ok = c and (c and x)", "ok = not (c and x)", "ok = [c and x, 0][0]"]
+    finals = ["return [ok, x]", "y = x\nreturn [ok, y]", "return [ok, x if True else 0]", "return [ok] + [x]"]
+    for a in assigns:
+        for u in uses:
+            for r in finals:
+                for order in ("au", "ua"):
+                    body = (a + "\n" + u) if order == "au" else (u + "\n" + a)
+                    src = "def ident(v):\n    return v\ndef f(c):\n" + indent(body + "\n" + r) + "emit(f(True))\nemit(f(False))\n"
+                    yield "F11", src, None
+
